@@ -189,8 +189,8 @@ def cov(W, rng, d, dt, depth, mode="ok"):
     elif depth <= 0:
         kinds = ["scaling", "diag", "diag"]
     else:
-        kinds = ["scaling", "diag", "diag", "sandwich", "sandwich", "sandwich", "add", "add", "adjoint", "inverse",
-                 "invEnabler", "sub", "scale", "matmul"]
+        kinds = ["scaling", "diag", "diag", "sandwich", "sandwich", "sandwich", "sandwich", "add", "add", "adjoint", "inverse",
+                 "inverse", "inverse", "invEnabler", "sub", "scale", "matmul"]
     k = rng.choice(kinds)
     sub_mode = mode if rng.random() < 0.5 else "ok"
     dtx = dt if not (mode == "bad" and rng.random() < 0.3) else 0
@@ -218,6 +218,12 @@ def cov(W, rng, d, dt, depth, mode="ok"):
     if k in ("add", "sub"):
         return dict(op=k, a=cov(W, rng, d, dt, depth - 1, sub_mode), b=cov(W, rng, d, dt, depth - 1, "ok"), d=d, t=d)
     if k in ("adjoint", "inverse", "invEnabler"):
+        inv_leaves = [lf for lf in W.leaves if lf.dom == d and lf.tgt == d and lf.cap == 15]
+        if k == "inverse" and inv_leaves and rng.random() < 0.5:
+            # an OperatorAdapter around a sandwich whose bun can be inverted: the adapter must swap forward and inverse draws
+            lf = rng.choice(inv_leaves)
+            inner = dict(op="sandwich", bun=dict(op="leaf", id=lf.id, d=d, t=d), cheese=cov(W, rng, d, dt, 0, sub_mode), dt=dtx, d=d, t=d)
+            return dict(op="inverse", a=inner, d=d, t=d)
         return dict(op=k, a=cov(W, rng, d, dt, depth - 1, mode), d=d, t=d)
     if k == "scale":
         return dict(op="scale", a=cov(W, rng, d, dt, depth - 1, mode), c=gj(rng.choice(SQ)), d=d, t=d)
@@ -226,15 +232,26 @@ def cov(W, rng, d, dt, depth, mode="ok"):
     raise AssertionError(k)
 
 
-def gen_case(W, rng, depth):
+def gen_case(W, rng, depth, force_se=False):
     d = rng.randrange(len(W.sizes))
     dt = rng.choice([1, 1, 2])
     mode = "bad" if rng.random() < 0.25 else "ok"
     fi = rng.random() < 0.45
-    if rng.random() < 0.12:
-        se = dict(lik=cov(W, rng, d, dt, max(depth - 1, 0), "ok"), prior=cov(W, rng, d, dt, max(depth - 1, 0), "ok"),
-                  zero=rng.random() < 0.4)
-        return dict(se=se, fi=(rng.random() < 0.85), dt=dt, d=d)
+    if force_se:
+        d = rng.choice([0, 1, 4])
+        fi = True
+    if force_se or rng.random() < 0.1:
+        # likelihood: mostly a sandwich over a library leaf, so that likelihood + prior stays a SumOperator (numerical inversion)
+        lik = cov(W, rng, d, dt, max(depth - 1, 0), "ok")
+        sq = [lf for lf in W.leaves if lf.dom == d and lf.tgt == d and (lf.cap & 3) == 3]
+        if sq and d not in W.multi and rng.random() < 0.75:
+            lf = rng.choice(sq)
+            lik = dict(op="sandwich", bun=dict(op="leaf", id=lf.id, d=d, t=d), cheese=cov(W, rng, d, dt, 0, "ok"), dt=dt, d=d, t=d)
+        prior = cov(W, rng, d, dt, 0 if rng.random() < 0.7 else max(depth - 1, 0), "ok")
+        if rng.random() < 0.5:
+            lik, prior = (prior, lik) if rng.random() < 0.3 else (lik, prior)
+        se = dict(lik=lik, prior=prior, zero=rng.random() < (0.25 if force_se else 0.4))
+        return dict(se=se, fi=(True if force_se else rng.random() < 0.85), dt=dt, d=d)
     return dict(script=cov(W, rng, d, dt, depth, mode), fi=fi, dt=dt, d=d)
 
 
@@ -414,7 +431,7 @@ def run(ctx):
     cases = load_corpus()
     n = ctx.n(220, 3000)
     for i in range(n):
-        cases.append(gen_case(W, ctx.rng, ctx.rng.choice([0, 1, 1, 2] if ctx.quick else [0, 1, 2, 2, 3])))
+        cases.append(gen_case(W, ctx.rng, ctx.rng.choice([0, 1, 1, 2] if ctx.quick else [0, 1, 2, 2, 3]), force_se=(i % 8 == 7)))
     reals = [run_real(W, c) for c in cases]
     models = run_model(ctx, W, cases)
     for c, r, m in zip(cases, reals, models):
